@@ -19,9 +19,9 @@ type SpecFunc struct {
 	Doc    string
 	Opaque bool // emitted as an uninterpreted function with a defining axiom triggered on its application
 	// rendered
-	decl   string
-	axioms []string
-	deps   []string
+	decl      string
+	axioms    []string
+	deps      []string
 	inductive bool
 }
 
@@ -319,7 +319,19 @@ func (e *Engine) renderSpecs(bv bool) error {
 						vars = append(vars, [2]string{"p!" + p[0], specSort(p[1])})
 						args = append(args, "p!"+p[0])
 					}
-					sf.axioms = append(sf.axioms, tForall(vars, tEq(app(name, args...), body), app(name, args...)))
+					// not stated as "f(args) = body": z3 would take that for a macro, eliminate f and with it every
+					// trigger that mentions f (lemmas attached to f, hypotheses about f)
+					lhs := app(name, args...)
+					var def string
+					switch ret {
+					case SBool:
+						def = tAnd(tImp(lhs, body), tImp(body, lhs))
+					case SInt, SReal:
+						def = tAnd(tLe(lhs, body), tGe(lhs, body))
+					default:
+						def = tEq(lhs, body)
+					}
+					sf.axioms = append(sf.axioms, tForall(vars, def, lhs))
 				} else {
 					sf.decl = fmt.Sprintf("(define-fun %s (%s) %s %s)", name, strings.Join(ps, " "), ret, body)
 				}
